@@ -40,6 +40,10 @@ def run(ctx):
     rule_sig(ctx, F)
     rule_order(ctx, F)
     rule_lookup(ctx, F)
+    rule_bound(ctx, F)
+    rule_whole(ctx, F)
+    rule_rev(ctx, F)
+    rule_cmpr(ctx, F)
     rule_rollback(ctx, F)
     rule_trunc(ctx, F)
 
@@ -517,7 +521,12 @@ def rule_lookup(ctx, F):
                 return any(s[0] == "agg" and len(s[1]) > 1 and str(s[1][1]).endswith("RangeTo") and s[2] and
                            const_value(deep_strip(s[2][0])) == 0 for s in walk(x))
             empty_rest = _empty_range(rest) or _empty_range(elems[1])
-            ctx.ob(R, b, "%s: result#%d names the entry as parent only if it is shared whole (or nothing remains)" % (fn, k),
+            # name the result by what its remainder is, not by its position (positions shift when a branch is merged)
+            walked = any(s[0] == "call" and re.search(r"LabelIter(::<.*>)?::remaining$", s[1] or "") for s in walk(rest))
+            tag = "result#%d" % k
+            if fn == "lookup_entry_for_name":
+                tag = "result(no remainder)" if empty_rest else ("result(remainder from the label walk)" if walked else "result#%d" % k)
+            ctx.ob(R, b, "%s: %s names the entry as parent only if it is shared whole (or nothing remains)" % (fn, tag),
                    whole or empty_rest,
                    "%s returns entry i together with an offset *inside* entry i and a non-empty remainder: the "
                    "remainder is then registered as a child of i although it continues only a suffix of i; since "
@@ -603,6 +612,16 @@ def rule_rollback(ctx, F):
     for bb in builds:
         reach = b.reach_from(bb, removed_blocks=restores)
         bad += [e for e in errs if e in reach and e != bb]
+    # the section count is raised only once the item is in the message
+    incs = [bb for bb, t in b.calls() if re.search(r"AddAssign<.*>>::add_assign$|AddAssign(<.*>)?::add_assign$", t["fn"] or "")]
+    if ctx.anchor(R, "section count increment in push", len(incs) >= 1, b.where()):
+        from rulelib import succeeded_calls
+        for ib in incs:
+            ok = any(bb in succeeded_calls(b, ib, F) for bb in builds)
+            ctx.ob(R, b, "the section count is raised only after the item was built", ok,
+                   "MessageBuilder::push counts the item in the header before build_in_message has succeeded: when the item does "
+                   "not fit, push fails but the count stays one too high and the finished message announces a record it does not "
+                   "contain", b.where(ib))
     ctx.ob(R, b, "failure exit restores the compressor", not bad,
            "MessageBuilder::push returns an error after build_in_message may have registered names in the compressor, "
            "without resetting it (the source carries a TODO): the stale entries match whatever is written at those "
@@ -636,3 +655,158 @@ def rule_trunc(ctx, F):
     ctx.ob(R, b, "dropping the contents also resets the section counts", cnt,
            "MessageBuilder::truncate sets offset = 0 (all questions and records are gone) but leaves header.counts as they "
            "were: the finished message announces records it does not contain and no parser can read it")
+
+
+def rule_bound(ctx, F):
+    """The remainder `lookup_entry_for_name` hands back (the labels still to be written in front of the pointer) is a prefix
+    of `name` cut where the label walk over `name` stands (`name_labels.remaining()`), or empty.  A cut computed from the
+    *entry's* length is only a byte position: `x0aaa...a.org.` ends in the octets of `aaa...a.org.` (48 = '0') without
+    sharing a label with it."""
+    R = "C19.bound"
+    ctx.floor(R, 2)
+    b = F.one_body("^" + re.escape(NC) + r"lookup_entry_for_name$")
+    if not ctx.anchor(R, "NameCompressor::lookup_entry_for_name", b):
+        return
+    somes = _some_tuples(b)
+    if not ctx.anchor(R, "Some((index, rest, hash, pos)) of lookup_entry_for_name", len(somes) >= 2, b.where()):
+        return
+    for k, (bi, op, elems) in enumerate(somes):
+        if len(elems) < 2:
+            continue
+        rest = b.term_of_operand(elems[1]) if not isinstance(elems[1], tuple) else elems[1]
+        rest = deep_strip(rest)
+        ok, why = False, "the remainder is not a prefix slice of the name"
+        if rest[0] == "call" and (rest[1] or "").endswith("Index::index") and len(rest[3]) == 2:
+            rng = deep_strip(rest[3][1])
+            if rng[0] == "agg" and "RangeTo" in str(rng[1]) and rng[2]:
+                end = deep_strip(rng[2][0])
+                if const_value(end) == 0:
+                    ok = True
+                elif end[0] == "bin" and end[1] in ("Sub", "SubUnchecked"):
+                    cut = end[3]
+                    if any(s[0] == "call" and re.search(r"LabelIter::<.*>::remaining$|LabelIter::remaining$", s[1] or "") for s in walk(cut)):
+                        ok = True
+                    else:
+                        why = "the cut is `name.len() - %s`" % show(deep_strip(cut))[:90]
+        ctx.ob(R, b, "result#%d: the remainder ends at a label boundary of the name" % (k + 1), ok,
+               "lookup_entry_for_name returns a remainder that is not cut where the walk over the name's labels stands (%s): "
+               "when the entry's octets merely happen to end the name's octets (a length octet that is also a letter), the "
+               "remainder is not a sequence of labels -- the builder panics ('a valid last label could not be found') or "
+               "writes a name nobody can parse" % why, b.where(bi))
+
+
+def rule_whole(ctx, F):
+    """A `parse_*` function of the new codec must consume its whole input (a `split_*` function returns the rest).  For every
+    record-data type of the new codec with a hand-written `parse_message_bytes` / `parse_bytes`, the last read in front of
+    each successful return is a `parse_*` call (or the rest is tested for emptiness): surplus octets inside RDLENGTH are an
+    error, as in the established codec."""
+    R = "C19.whole"
+    ctx.floor(R, 8)
+    n = 0
+    rd = re.compile(r"(^|::)(split|parse)_(without_compression|message_bytes|bytes|bytes_by_ref|bytes_by_mut)$")
+    for p, b in sorted(F.bodies.items()):
+        if not re.match(r"^<new::rdata::.* as new::base::(parse|wire)::.*(ParseMessageBytes|ParseBytes)(<.*>)?>::(parse_message_bytes|parse_bytes)$", p):
+            continue
+        reads = []
+        for bb, tt in b.calls():
+            fn = re.sub(r"::<.*?>$", "", tt["fn"] or "")
+            mm = rd.search(fn)
+            if mm:
+                reads.append((bb, mm.group(2), fn))
+        if not reads:
+            continue
+        empties = [bb for bb, tt in b.calls() if re.search(r"::is_empty$", tt["fn"] or "")]
+        oks = [r[0] for r in return_assignments(b) if r[2] == "Ok"]
+        if not oks:
+            continue
+        n += 1
+        bad = []
+        for ob in oks:
+            doms = [(bb, kind, fn) for bb, kind, fn in reads if b.dominates(bb, ob)]
+            if not doms:
+                continue
+            # the last one: the read that every other dominating read dominates
+            last = [d for d in doms if all(b.dominates(o[0], d[0]) for o in doms)]
+            if last and last[0][1] == "split" and not any(b.dominates(e, ob) for e in empties):
+                bad.append(last[0][2].split("::")[-1])
+        ctx.ob(R, b, "the last field is read with a function that refuses trailing octets", not bad,
+               "%s reads its last field with %s, which hands back the rest instead of refusing it: record data with surplus "
+               "octets inside RDLENGTH is accepted by the new codec and rejected by the established one"
+               % (re.sub(r" as .*", "", p).lstrip("<"), bad[:1]))
+    ctx.ob(R, "new::rdata", "hand-written parse functions examined", n >= 8, "only %d found" % n, nontrivial=False)
+
+
+def rule_rev(ctx, F):
+    """RevName stores its labels in reverse order; what build_in_message writes in front of a compression pointer must be
+    turned round label by label (a loop over the remainder's labels), not copied as it is."""
+    R = "C19.rev"
+    ctx.floor(R, 1)
+    bs = [b for p, b in F.bodies.items() if re.match(r"^<new::base::name::reversed::RevName as new::base::build::BuildInMessage>::build_in_message$", p)]
+    if not ctx.anchor(R, "RevName::build_in_message", len(bs) == 1):
+        return
+    b = bs[0]
+    from rulelib import cyclic_blocks
+    cyc = cyclic_blocks(b)
+    comp = [bb for bb, tt in b.calls() if re.search(r"NameCompressor::compress_revname$", tt["fn"] or "")]
+    if not ctx.anchor(R, "compress_revname call", len(comp) == 1, b.where()):
+        return
+    # the compressed branch: copies of the remainder into the buffer
+    copies = [(bb, tt) for bb, tt in b.calls() if re.search(r"::copy_from_slice$", tt["fn"] or "") and b.dominates(comp[0], bb)]
+    per_label = [bb for bb, tt in copies if bb in cyc and any(s[0] == "call" and re.search(r"Label::as_wire$|Label::as_bytes$", s[1] or "") for a in tt["args"] for s in walk(b.term_of_operand(a)))]
+    whole = [bb for bb, tt in copies if bb not in cyc and any(s[0] == "field" and False for s in ())]
+    labels_iter = [bb for bb, tt in b.calls() if re.search(r"LabelIter(::<.*>)?::new_unchecked$|LabelIter(::<.*>)?::new$", tt["fn"] or "") and b.dominates(comp[0], bb)]
+    ctx.ob(R, b, "the labels in front of the pointer are written one by one, in reverse", bool(per_label) and bool(labels_iter),
+           "RevName::build_in_message does not walk the labels of the uncompressed remainder (which the compressor hands back in "
+           "RevName order) when it writes them in front of the pointer: with two or more labels there, `_sip._tcp.example.org.` "
+           "is read back as `_tcp._sip.example.org.`", b.where(comp[0]))
+
+
+def rule_cmpr(ctx, F):
+    """Writer and reader of one record type agree on name compression: a type whose `parse_message_bytes` reads its data
+    without decompression (`*_without_compression` only) must not hand the compressor on in `build_in_message` -- otherwise
+    the new parser cannot read what the new builder wrote (and RFC 3597 / RFC 6672 forbid compressing those names)."""
+    R = "C19.cmpr"
+    ctx.floor(R, 8)
+    builds, parses = {}, {}
+    for p, b in F.bodies.items():
+        m = re.match(r"^<(&'a )?(new::rdata::[\w:]+)(<.*>)? as new::base::build::BuildInMessage>::build_in_message$", p)
+        if m:
+            builds[m.group(2)] = b
+        m = re.match(r"^<(&'a )?(new::rdata::[\w:]+)(<.*>)? as new::base::parse::ParseMessageBytes<'a>>::parse_message_bytes$", p)
+        if m:
+            parses[m.group(2)] = b
+    n = 0
+    for ty in sorted(set(builds) & set(parses)):
+        bb_, pb = builds[ty], parses[ty]
+        reads = [re.sub(r"::<.*?>$", "", tt["fn"] or "") for _, tt in pb.calls()]
+        plain = [r for r in reads if re.search(r"_without_compression$", r)]
+        decomp = [r for r in reads if re.search(r"(split|parse)_message_bytes$", r)]
+        if not plain and not decomp:
+            continue
+        n += 1
+        def uses_compressor(body, argn, depth=0):
+            """does `body` let its parameter argn reach NameCompressor::compress_*?  (followed through resolved callees;
+            an unresolved trait call that receives it counts as a use)"""
+            for _, tt in body.calls():
+                hit = None
+                for i, a in enumerate(tt["args"]):
+                    tm = deep_strip(body.term_of_operand(a))
+                    if tm == ("arg", argn):          # the compressor itself (or a reborrow of it), not a value computed with it
+                        hit = i
+                if hit is None:
+                    continue
+                fn = tt.get("res") or tt["fn"] or ""
+                if re.search(r"NameCompressor::compress_", fn):
+                    return True
+                cb = F.bodies.get(fn)
+                if cb is None:
+                    return True
+                if depth < 3 and uses_compressor(cb, hit + 1, depth + 1):
+                    return True
+            return False
+        passes = uses_compressor(bb_, 4)
+        ctx.ob(R, bb_, "%s: compresses names only if its parser decompresses them" % ty.split("::")[-1], not (passes and not decomp),
+               "%s::build_in_message hands the name compressor on, but %s::parse_message_bytes reads the record data with %s "
+               "only (no decompression): the new parser refuses the record the new builder wrote, and the name must not be "
+               "compressed on the wire in the first place" % (ty.split("::")[-1], ty.split("::")[-1], sorted(set(x.split("::")[-1] for x in plain))))
+    ctx.ob(R, "new::rdata", "types with both a message builder and a message parser", n >= 8, "only %d found" % n, nontrivial=False)
